@@ -29,8 +29,11 @@ LABEL = ('full on the model (aggregate for all lists; Watch for all set/step int
          'after an aborted run; cancellation coinciding with the timeout) with the strongest true partial '
          'theorems; the asyncio primitives, the timer firing exactly at its deadline and a cancellable check '
          'function are modelled assumptions tied by the correspondence runs')
-TRUSTED = ['tools/facts_C19.py (fail-closed ast translator for grpclib/health: _status chain, Check/Watch '
-           'branches, _reset_waits shape, __check__ latch/TTL/wrapper structure, defaults; health.proto enum)',
+TRUSTED = ['tools/facts_C19.py (facts BY VALUE: the health modules of the repository are imported and probed through '
+           'their public surface on the virtual loop over small finite domains -- aggregate for every status '
+           'multiset up to 3, what one Watch wake-up does to absent / pending / woken / done wait tasks and that it '
+           'happens in one loop iteration, TTL test at ttl-1/ttl/ttl+1, endings of a run, hand-over of the poll task; '
+           'fail-closed on observations the model does not understand)',
            'modelled, not verified: asyncio.Event (set wakes the waiters that exist, a woken waiter returns '
            'even if the flag is cleared again), asyncio.wait(FIRST_COMPLETED) hop structure, FIFO ready queue, '
            'Task.cancel collapsing, call_later firing at its instant on the virtual clock; h2/protobuf '
@@ -539,7 +542,7 @@ def oracle_sc(res, case, impl):
         fail(res, case, 'final value %d differs from the latest completed run' % impl['value'],
              {'kind': 'sc-wrong-value'}, impl)
     # watchers are notified exactly when the value changes
-    if cv is not None:
+    if cv is not None and impl['notes'] is not None:
         exp, v = [], 2
         for e, x in cv:
             if x != v:
@@ -620,7 +623,7 @@ def oracle_churn(res, case, out):
     if errs:
         fail(res, case, 'the server logged %r' % (errs[:2],), {'kind': 'watch-cleanup-error', 'exc': errs[0][2]}, errs)
     if out['left_events'] or out['left_polls']:
-        fail(res, case, 'after all watchers left: %d events still subscribed, %d checks still polled'
+        fail(res, case, 'after all watchers left: %r events still subscribed, %r checks still polled'
              % (out['left_events'], out['left_polls']), {'kind': 'unsubscribe-leak'}, None)
     for m in out['max_active']:
         if m is not None and m > 1:
@@ -720,7 +723,7 @@ def oracle_sce2e(res, case, out):
                 fail(res, case, 'missed update: last delivered %d, current %d' % (got[-1][0], cur),
                      {'kind': 'watch-missed-update'}, {'watch': w, 'logs': out['logs']})
     if out['left_events'] or out['left_polls']:
-        fail(res, case, 'after all watchers left: %d events still subscribed, %d poll tasks'
+        fail(res, case, 'after all watchers left: %r events still subscribed, %r poll tasks'
              % (out['left_events'], out['left_polls']), {'kind': 'unsubscribe-leak'}, None)
 
 
@@ -793,6 +796,9 @@ def run_one(res, c, m):
     elif op == 'reset':
         impl, keys = I.impl_reset(c['slots'])
         res.signatures.add(('reset', tuple(c['slots'])))
+        if impl is None:
+            res.count('reset:unobservable (no separate re-arm helper found)')
+            return
         res.count('reset')
         if m is not None:
             res.traces += 1
@@ -887,13 +893,16 @@ def run_one(res, c, m):
                 mlog.append((int(s), int(e), 'raise' if h == 'retR' else 'ret' if h.startswith('ret') else 'cancelled'))
             if mm['inflight'] != '-':
                 mlog.append((int(mm['inflight']), None, None))
-            view_m = {'value': int(mm['v']), 'last': None if mm['last'] == '-' else int(mm['last']),
-                      'lock': int(mm['lock']), 'callers': [x for x in mm['callers'].split(',') if x],
+            view_m = {'value': int(mm['v']), 'callers': [x for x in mm['callers'].split(',') if x],
                       'log': mlog,
                       'notes': [tuple(map(int, x.split(':'))) for x in mm['notes'].split(',') if x]}
             view_i = {k: impl[k] for k in view_m}
             view_i['log'] = [tuple(x) for x in impl['log']]
-            view_i['notes'] = [tuple(x) for x in impl['notes']]
+            if impl['notes'] is None:
+                del view_m['notes'], view_i['notes']
+                res.count('sc:notifications-unobservable')
+            else:
+                view_i['notes'] = [tuple(x) for x in impl['notes']]
             view_m['callers'] = ['pending' if x in ('wait', 'woken', 'run', 'run!') else x for x in view_m['callers']]
             if view_m != view_i:
                 differ(res, c, view_m, view_i)
@@ -905,7 +914,7 @@ def run_one(res, c, m):
                             c.get('armed_first', True)))
         res.count('unsub:handler:' + out['handler'])
         late = [r for r in out['log'] if r[0] > c['cancel_at']]
-        if out['handler'] == 'pending' or late or out['subscribed'] or out['poll_task_attr']:
+        if out['handler'] == 'pending' or late or out['subscribed'] or out['live_pollers']:
             fail(res, c, 'after the only watcher was cancelled at t=%d: handler %s, %d later runs of the function, '
                  '%d events subscribed' % (c['cancel_at'], out['handler'], len(late), out['subscribed']),
                  {'kind': 'unsubscribe-hang'}, out)
@@ -924,12 +933,15 @@ def run_one(res, c, m):
             sc_ids = [i for i, spec in enumerate(c['checks']) if 'status' not in spec]
             for i, line in zip(sc_ids, m):
                 res.traces += 1
-                mm = [tuple(int(x) for x in sn.split(',')[:3]) for sn in line.split('|')]
+                mm = [(int(sn.split(',')[0]), int(sn.split(',')[2])) for sn in line.split('|')]
                 ii = [tuple(sn[i]) for sn in out['snaps']]
+                if any(x[0] is None for x in ii):
+                    mm, ii = [x[1] for x in mm], [x[1] for x in ii]
+                    res.count('churn:subscriber-count-unobservable')
                 errs = [sn.split(',')[4] for sn in line.split('|')]
                 if mm != ii or '1' in errs:
-                    differ(res, c, {'check': i, '(events, poll_task, live pollers) at idle points': mm},
-                           {'check': i, '(events, poll_task, live pollers) at idle points': ii})
+                    differ(res, c, {'check': i, '(subscribers, live pollers) at idle points': mm},
+                           {'check': i, '(subscribers, live pollers) at idle points': ii})
         oracle_churn(res, c, out)
     elif op == 'sce2e':
         out = I.impl_sc_e2e(c)
@@ -951,7 +963,7 @@ def unjson(case):
 def run(ctx):
     res = Result()
     rng = ctx.rng
-    res.rule = ('agg: ALL lists over {True,False,None} of length 0..6 (exhaustive) + PRNG lists up to 14; reset: ALL '
+    res.rule = ('agg: ALL lists over {True,False,None} of length 1..6 (exhaustive, through Health.Check) + PRNG lists up to 14; reset: ALL '
                 '(flag, wait-state) pairs for 1..2 events + PRNG longer; check: PRNG Health configs (0..4 services, '
                 'explicit / implicit OVERALL, empty lists, duplicates) x status assignments x every registered name, '
                 'OVERALL and an unregistered name, over a real client stub; watch: PRNG schedules of set bursts, loop '
@@ -964,7 +976,7 @@ def run(ctx):
     cases = [unjson(c) for c in ctx.corpus()]
     # exhaustive small truth table
     kmax = 6
-    for n in range(kmax + 1):
+    for n in range(1, kmax + 1):
         for t in itertools.product([1, 0, 2], repeat=n):
             cases.append({'op': 'agg', 'vals': list(t)})
     for _ in range(ctx.n(300, 5000)):
